@@ -5,6 +5,7 @@ pid, m, caught, note = sys.argv[1], sys.argv[2], sys.argv[3], sys.argv[4]
 d = f'/verif/seeded/{pid}-{m}'
 a = json.load(open(f'{d}/agent_meta.json')) if os.path.exists(f'{d}/agent_meta.json') else {}
 conf = open(f'{d}/confirmation.txt').read().strip() if os.path.exists(f'{d}/confirmation.txt') else ''
+old = json.load(open(f'{d}/meta.json')) if os.path.exists(f'{d}/meta.json') else {}
 meta = {
   'property': pid,
   'summary': a.get('summary', ''),
@@ -19,5 +20,9 @@ meta = {
   'caught_by_quick_checks': [] if caught == 'none' else caught.split(','),
   'check_report': note,
 }
+# the note written when the change was first tried (may say 'missed at first ...') is kept
+first = old.get('first_report') or old.get('check_report')
+if first and first != note:
+    meta['first_report'] = first
 json.dump(meta, open(f'{d}/meta.json', 'w'), indent=1)
 print('recorded', d)
